@@ -168,7 +168,34 @@ def run(ctx):
 
     recs, summ = observe(ctx, cfgs, "main")
     ctx.log("observed", summ)
-    verdicts = judge(ctx, recs, label="judge %d records of the real Verify/NewRouter" % len(recs))
+    # binding self-test rides along: three corrupted copies of a record of a plain valid configuration (and the copy
+    # itself) are judged in the same TLC run; TLC must reject the corrupted ones and accept the copy
+    plain = [x for x in recs if x["verify"] == "ok" and x["load"] == "ok" and len(x["tables"]) == 1
+             and x["tables"][0]["type"] == "hash" and len(x["tables"][0]["subtables"]) >= 2 and not x["tables"][0]["crashed"]
+             and sorted(x["tables"][0]["subtables"]) == sorted(set(x["tables"][0]["subtables"]))
+             and len(x["cfg"]["rules"]) == 1 and x["cfg"]["rules"][0]["locations"]
+             and min(x["cfg"]["rules"][0]["locations"]) > 0 and x["cfg"]["default"] != ""]
+    if not plain:
+        raise vlib.Inconclusive("no plain valid record to corrupt for the binding self-test")
+    tries = []
+    t = copy.deepcopy(plain[0]); t["tables"][0]["subtables"].append(t["tables"][0]["subtables"][0]); tries.append(t)
+    t = copy.deepcopy(plain[0]); t["load"] = "err"; t["tables"] = []; tries.append(t)
+    t = copy.deepcopy(plain[0]); t["tables"][0]["t2s"] = t["tables"][0]["t2s"][1:]; tries.append(t)
+    tries.append(copy.deepcopy(plain[0]))
+    for i, t in enumerate(tries):
+        t["id"] = len(recs) + i
+    allv = judge(ctx, recs + tries, label="judge %d records of the real Verify/NewRouter (+4 self-test records)" % len(recs))
+    st = [allv.pop(len(recs) + i) for i in range(4)]
+    verdicts = allv
+    detected = sum(1 for v in st[:3] if v["bad"])
+    ctx.cov["binding_selftest"] = {"corrupted_records": 3, "rejected_by_tlc": detected, "sound_record_accepted": not st[3]["bad"]}
+    if thorough:
+        rr = judge(ctx, [dict(tries[0], id=0)], strict=True, label="self-test: corrupted record against the invariant SoundRecord")
+        ctx.cov["binding_selftest"]["invariant_SoundRecord_violated_on_corrupted_record"] = rr.violated == "SoundRecord"
+        if rr.violated != "SoundRecord":
+            raise vlib.Inconclusive("binding self-test failed: invariant SoundRecord not violated by a corrupted record (%s)" % rr.violated)
+    if detected != 3 or st[3]["bad"]:
+        raise vlib.Inconclusive("binding self-test failed: %d of 3 corrupted records rejected, sound copy rejected=%s" % (detected, bool(st[3]["bad"])))
     report(ctx, recs, verdicts)
 
     ctx.cov["traces_validated_against_impl"] += len(recs)
@@ -197,25 +224,3 @@ def run(ctx):
     for x in (recs[0], recs[len(recs) // 3], recs[len(recs) // 2]):
         ctx.sample({"cfg": x["cfg"], "verify": x["verify"], "load": x["load"], "tables": x["tables"], "verdict": verdicts[x["id"]]})
 
-    # binding self-test: corrupted records must be rejected by TLC (Strict turns the verdict into an invariant)
-    good = [x for x in recs if x["verify"] == "ok" and x["load"] == "ok" and not verdicts[x["id"]]["bad"]
-            and x["tables"] and len(x["tables"][0]["subtables"]) >= 2]
-    if not good:
-        raise vlib.Inconclusive("no sound record to corrupt for the binding self-test")
-    detected = 0
-    tries = []
-    a = copy.deepcopy(good[0]); a["tables"][0]["subtables"].append(a["tables"][0]["subtables"][0]); tries.append(a)
-    b = copy.deepcopy(good[0]); b["load"] = "err"; b["tables"] = []; tries.append(b)
-    c = copy.deepcopy(good[0]); c["tables"][0]["t2s"] = c["tables"][0]["t2s"][1:]; tries.append(c)
-    tries.append(copy.deepcopy(good[0]))          # the unmodified record must still be accepted
-    for i, t in enumerate(tries):
-        t["id"] = i
-    vs = judge(ctx, tries, label="self-test: three corrupted records and the sound one")
-    detected = sum(1 for i in range(3) if vs[i]["bad"])
-    sound_ok = not vs[3]["bad"]
-    rr = judge(ctx, [tries[0]], strict=True, label="self-test: corrupted record against the invariant SoundRecord")
-    ctx.cov["binding_selftest"] = {"corrupted_records": 3, "rejected_by_tlc": detected, "sound_record_accepted": sound_ok,
-                                   "invariant_SoundRecord_violated_on_corrupted_record": rr.violated == "SoundRecord"}
-    if detected != 3 or not sound_ok or rr.violated != "SoundRecord":
-        raise vlib.Inconclusive("binding self-test failed: %d of 3 corrupted records rejected, sound record accepted=%s, invariant=%s"
-                                % (detected, sound_ok, rr.violated))
